@@ -147,6 +147,44 @@ def run_ambient(case):
         except Exception as e:
             res[amb] = 'X ' + type(e).__name__
         _symbolic_mode.set(None)
+    # the results of ONE evaluation drawn partly outside and partly inside a block (an / infer only)
+    for sched in ('split_oi', 'split_io'):
+        if quant == 'the':
+            res[sched] = res['none']
+            continue
+        objs = [M(a) for a in case['values']]
+        with (rule_mode() if kind == 'infer' else symbolic_mode()):
+            x = let(M, domain=objs)
+            cond = is_big(x) if kind == 'function' else IsBig(m=x) if kind == 'class' else (x.a >= 2)
+            q = infer(entity(Tag(src=x, level=case.get('level', 1)), x.a >= 2)) if kind == 'infer' else an(entity(x, cond))
+
+        def show(v):
+            if isinstance(v, M):
+                return 'm%d' % objs.index(v)
+            if isinstance(v, Tag):
+                return 'tag(%s,%s)' % (show(v.src), v.level)
+            return type(v).__name__
+        try:
+            it = q.evaluate()
+            r = []
+            if sched == 'split_oi':
+                try:
+                    r.append(next(it))
+                    with symbolic_mode():
+                        r += list(it)
+                except StopIteration:
+                    pass
+            else:
+                try:
+                    with symbolic_mode():
+                        r.append(next(it))
+                    r += list(it)
+                except StopIteration:
+                    pass
+            res[sched] = 'R ' + ';'.join(show(v) for v in r)
+        except Exception as e:
+            res[sched] = 'X ' + type(e).__name__
+        _symbolic_mode.set(None)
     return res
 
 
